@@ -128,7 +128,7 @@ def run(ctx):
     phase = {}
     t0 = time.time()
     cfgs = configs(ctx)
-    with ProcessPoolExecutor(max_workers=NWORKERS) as ex:
+    with ProcessPoolExecutor(max_workers=NWORKERS, initializer=C.child_process_guard) as ex:
         results = list(ex.map(work, cfgs, chunksize=4))
     phase["real_runs_s"] = round(time.time() - t0, 1)
     t0 = time.time()
@@ -198,7 +198,7 @@ def run(ctx):
             if a not in ("OMOPSO", "SMPSO"):
                 for g in [g for g in T.all_configs() if g["alg"] == a][:40]:
                     extra.append(T.finalize(dict(g, steps=30), ctx.rng))
-        with ProcessPoolExecutor(max_workers=NWORKERS) as ex:
+        with ProcessPoolExecutor(max_workers=NWORKERS, initializer=C.child_process_guard) as ex:
             more = list(ex.map(work, extra, chunksize=4))
         search_runs = len(more)
         for r in more:
